@@ -230,8 +230,10 @@ func rawCall(v avfs.VFS, c fsx.Call) (val string, err error) {
 		return strings.Join(names, ","), err
 	case "ReadFile":
 		b, err := v.ReadFile(c.A)
+		val := fmt.Sprintf("%q", b)
+		fsx.Scribble(b) // a returned slice is the caller's: no file may change with it
 
-		return fmt.Sprintf("%q", b), err
+		return val, err
 	case "Readlink":
 		return v.Readlink(c.A)
 	case "EvalSymlinks":
